@@ -20,6 +20,7 @@ type incomingBlocksFile struct {
 	baseNum        uint64
 	filename       string // Base filename (%100 of block_num)
 	filteredBlocks []uint64
+	filtered       bool // the file is read through a block index: some blocks are skipped (set once, filteredBlocks is consumed)
 	blocks         chan *PreprocessedBlock
 	err            error
 }
@@ -51,6 +52,7 @@ func newIncomingBlocksFile(baseBlockNum uint64, baseFileName string, filteredBlo
 		filename:       baseFileName,
 		blocks:         make(chan *PreprocessedBlock, 0),
 		filteredBlocks: filteredBlocks,
+		filtered:       filteredBlocks != nil,
 	}
 	return ibf
 }
